@@ -86,19 +86,22 @@ func (r *validationResponseHandler) HandleValidationResponse(
 		return ctx.Stored.Data, nil
 	}
 
-	var (
-		ccResp     CCResponseDirectives
-		ccRespOnce bool
-	)
 	if (err != nil || isStaleErrorAllowed(resp.StatusCode)) && req.Method == http.MethodGet {
-		ccResp = ParseCCResponseDirectives(resp.Header)
-		ccRespOnce = true
-		if r.siep.CanStaleOnError(ctx.Freshness, ccResp) {
+		// RFC 5861 §4: stale-if-error is taken from the stored response being
+		// reused and from the request - never from the error reply itself, and
+		// never against must-revalidate or no-cache (RFC 9111 §4.2.4).
+		ccStored := ParseCCResponseDirectives(ctx.Stored.Data.Header)
+		noCacheFields, hasNoCache := ccStored.NoCache()
+		_, noCacheQualified := noCacheFields.Value()
+		blocked := ccStored.MustRevalidate() ||
+			(hasNoCache && !noCacheQualified) ||
+			ctx.CCReq.NoCache()
+		if !blocked && r.siep.CanStaleOnError(ctx.Freshness, ccStored, ctx.CCReq) {
 			// RFC 9111 §4.2.4 Serving Stale Responses
 			// RFC 9111 §4.3.3 Handling Validation Responses (5xx errors)
 			SetAgeHeader(ctx.Stored.Data, r.clock, ctx.Freshness.Age)
 			CacheStatusStale.ApplyTo(ctx.Stored.Data.Header)
-			r.l.LogCacheStaleIfError(req, ctx.URLKey, ctx.ToMisc(ccResp))
+			r.l.LogCacheStaleIfError(req, ctx.URLKey, ctx.ToMisc(ccStored))
 			return ctx.Stored.Data, nil
 		}
 	}
@@ -107,9 +110,7 @@ func (r *validationResponseHandler) HandleValidationResponse(
 		return nil, err
 	}
 
-	if !ccRespOnce {
-		ccResp = ParseCCResponseDirectives(resp.Header)
-	}
+	ccResp := ParseCCResponseDirectives(resp.Header)
 	switch {
 	case r.ce.CanStoreResponse(resp, ctx.CCReq, ccResp):
 		// RFC 9111 §4.3.3 Handling Validation Responses (full response)
